@@ -142,7 +142,7 @@ def native_sweep(run, n):
         except Exception as e:  # harness problems never become violations
             run.notes.append(f"native tick history failed to run: {e!r}")
             continue
-        if not ok and why.startswith("move to"):
+        if not ok and (why.startswith("move to") or why.startswith("after a reading was refused")):
             fails += 1
             run.findings.append(Finding("C10.py.tick_moves.native_sweep", "tick", f"python tick history {ticks} from t0={t0}, max {mx}: {why}", {"language": "python", "inputs": {"history": True, "t0": t0, "max_dt_sec": mx, "control_size": cs, "ticks": ticks}, "oracle_verdict": why}, True))
             break
